@@ -30,7 +30,7 @@ LEVEL_NOTE = (
 TECHNIQUE = "deterministic simulation: event log as ground truth, conservation of evaluation counters across stop/restart chains"
 DESIGN_REF = "DESIGN.md 4.3"
 BUDGET = {
-    "quick": {"plans": 1500, "wall": 70, "chunk": 8},
+    "quick": {"plans": 30000, "wall": 90, "chunk": 8},
     "thorough": {"plans": 120000, "wall": 900, "chunk": 16},
 }
 RULE = (
